@@ -437,3 +437,96 @@ func InsertWrongType(r *core.Rand, b []byte, md protoreflect.MessageDescriptor, 
 	recs = append(recs[:pos:pos], append([]Rec{x}, recs[pos:]...)...)
 	return Serialize(recs)
 }
+
+// Confuse applies one structure-level hostile rewrite that keeps the outer
+// framing consistent (so the damage lands inside a specific field): resize a
+// length-delimited payload by a few bytes, or re-number a record to another
+// field of the schema with the same wire type (type confusion: a string read
+// as a packed fixed64 list, a message read as a string, ...).
+func Confuse(r *core.Rand, recs []Rec, md protoreflect.MessageDescriptor, hist func(string), depth int) []Rec {
+	if len(recs) == 0 {
+		return recs
+	}
+	var subs []int
+	for i, x := range recs {
+		if x.IsSub && x.MD != nil {
+			subs = append(subs, i)
+		}
+	}
+	if len(subs) > 0 && depth < 5 && r.Chance(1, 3) {
+		i := subs[r.Intn(len(subs))]
+		recs[i].Sub = Confuse(r, recs[i].Sub, recs[i].MD, hist, depth+1)
+		return recs
+	}
+	i := r.Intn(len(recs))
+	switch r.Intn(3) {
+	case 0: // resize payload
+		for _, j := range r.Perm(len(recs)) {
+			if recs[j].Typ == protowire.BytesType {
+				var p []byte
+				if recs[j].IsSub {
+					p = Serialize(recs[j].Sub)
+				} else {
+					p = append([]byte{}, recs[j].Val...)
+				}
+				k := 1 + r.Intn(7)
+				if r.Bool() && len(p) >= k {
+					p = p[:len(p)-k]
+					hist("payload-shrink")
+				} else {
+					p = append(p, r.Bytes(k)...)
+					hist("payload-grow")
+				}
+				recs[j].IsSub, recs[j].Sub, recs[j].Val = false, nil, p
+				break
+			}
+		}
+	case 1: // re-number to another schema field
+		if md != nil && md.Fields().Len() > 0 {
+			fd := md.Fields().Get(r.Intn(md.Fields().Len()))
+			hist("renumber-to-" + fd.Kind().String())
+			if recs[i].IsSub && recs[i].Typ == protowire.BytesType {
+				recs[i].Val = Serialize(recs[i].Sub)
+				recs[i].IsSub, recs[i].Sub = false, nil
+			}
+			recs[i].Num = fd.Number()
+		}
+	case 2: // packed payload of awkward length for a packable field
+		if md != nil {
+			for _, j := range r.Perm(md.Fields().Len()) {
+				fd := md.Fields().Get(j)
+				want := wireTypeOf(fd)
+				if fd.IsList() && want != protowire.BytesType && want != protowire.StartGroupType {
+					hist("packed-odd-length-" + fd.Kind().String())
+					n := []int{1, 2, 3, 4, 5, 6, 7, 9, 11, 12, 13, 20}[r.Intn(12)]
+					p := r.Bytes(n)
+					if want == protowire.VarintType {
+						for k := range p {
+							p[k] &= 0x7f
+						}
+						if r.Bool() {
+							p[len(p)-1] |= 0x80 // dangling continuation
+						}
+					}
+					x := Rec{Num: fd.Number(), Typ: protowire.BytesType, Val: p}
+					pos := r.Intn(len(recs) + 1)
+					recs = append(recs[:pos:pos], append([]Rec{x}, recs[pos:]...)...)
+					break
+				}
+			}
+		}
+	}
+	return recs
+}
+
+// ConfuseWire parses, confuses and re-serialises wire data.
+func ConfuseWire(r *core.Rand, b []byte, md protoreflect.MessageDescriptor, hist func(string)) []byte {
+	recs, ok := ParseWire(b, md, 0)
+	if !ok {
+		return b
+	}
+	if hist == nil {
+		hist = func(string) {}
+	}
+	return Serialize(Confuse(r, recs, md, hist, 0))
+}
